@@ -5,7 +5,7 @@ META = dict(
           '&p->field, three sandbox casts, opaque round trip, store/load of a pointer cell, *pp / pp[0] with boundary representations in the cell) with n from '
           '5 integer types and boundary values; successor must be null or inside the own region (a second instance is live) or the step aborted. Plus every one '
           'of the 2^16 guest representations in 9 pointer-carrying positions (invoke result, callback argument, memory cell, array element, array-of-pointers, '
-          'struct field by pointer / by value / by-value result / copy_and_verify), malloc environment answers, app pointers; 32-bit instance on boundary states; an instance with a pointer-wide 64-bit base-relative representation over a 64 KiB region on all states and on boundary representations including ones that look like host addresses. '
+          'struct field by pointer / by value / by-value result / copy_and_verify), malloc environment answers (also on a base+representation backend without masking, where an answer beyond the region designates application memory or the neighbouring instance), app pointers; 32-bit instance on boundary states; an instance with a pointer-wide 64-bit base-relative representation over a 64 KiB region on all states and on boundary representations including ones that look like host addresses. '
           'plus compile probes that a tainted_volatile cannot be copied, moved or default-constructed (it must stay at its address in sandbox memory). states = states whose transitions were all executed; transitions = executed steps (each validated against the implementation).'),
     assumptions=['"inside" is decided by the mbox region; every state satisfying the invariant is explored, which over-approximates the reachable set',
                  'function pointers are excluded by the statement'],
@@ -61,12 +61,15 @@ def run(ctx):
     specs = [('c03_mask16', 'c03.cpp', dict(opt='-O1')),
              ('c03_reg16', 'c03.cpp', dict(opt='-O1', defs=['C03_MODE=REGISTRY', 'C03_TYPES=char, long, VS'])),
              ('c03_mask32', 'c03.cpp', dict(opt='-O1', defs=['C03_PTR=uint32_t', 'C03_TYPES=char, long, int*, VS'])),
-             ('c03_mask64', 'c03.cpp', dict(opt='-O1', defs=['C03_PTR=uint64_t', 'C03_LOG=16', 'C03_TYPES=char, long, int*, VS']))]
+             ('c03_mask64', 'c03.cpp', dict(opt='-O1', defs=['C03_PTR=uint64_t', 'C03_LOG=16', 'C03_TYPES=char, long, int*, VS'])),
+             # base + representation backend (no masking), 32-bit representations over a 64 KiB region: only the allocation partition
+             ('c03_unconf32', 'c03.cpp', dict(opt='-O1', defs=['C03_PTR=uint32_t', 'C03_LOG=16', 'MBOX_UNCONFINED', 'C03_TYPES=char, long, VS']))]
     bins = ctx.build_many(specs)
     a = ['--thorough'] if ctx.thorough else []
     ctx.run(bins['c03_mask16'], a)
     ctx.run(bins['c03_reg16'], a)
     ctx.run(bins['c03_mask32'], a)
     ctx.run(bins['c03_mask64'], a)
+    ctx.run(bins['c03_unconf32'], a + ['--what', 'env'], parts=1)
     if ctx.thorough:
         ctx.run(bins['c03_mask32'], a + ['--sweep32', '--what', 'positions'])
